@@ -9,7 +9,7 @@ from vlib.simharness import Harness, RefSim, enc_ref, enc_obs
 
 ID = "C05"
 RULE = ("Hypothesis (program, fault choice, strategy, drive) tuples: program as in C02 without illegal requests; "
-        "handlers in the fault set perform all their actions and then raise; fault choice = Hypothesis subset of "
+        "handlers in the fault set perform all their actions and then raise (an exception with a message, without arguments, StopIteration, AssertionError, KeyError, one with format characters in its text, one with non-string arguments, or a BaseException that is no Exception); fault choice = Hypothesis subset of "
         "the executed events (indices into the fault-free run) or, for programs with <=16 executed events, EVERY "
         "single fault index in turn ('all-singles'); strategy in {LOG_AND_CONTINUE, WARN_AND_CONTINUE, "
         "WARN_AND_PAUSE}, set with or without an explicit log level, possibly after another strategy, before the first initialize / after it / before a re-initialization (or cleanup + initialize) of the same simulator, and possibly changed by a handler during the run; events are plain SimEvents or instances of a SimEvent subclass whose execute() lets the handler's own exception through; drive in {start, bounded runs at fractions of the horizon, steps, mixed}. Oracle: "
@@ -49,6 +49,8 @@ def strategy(tier):
         "prev_strategy": st.sampled_from([None, 1, 2, 3]),
         "when": st.sampled_from(["after-init", "after-init", "before-init", "before-reinit", "before-cleanup-init"]),
         "direct": st.booleans(),
+        "fault_kind": st.sampled_from(["msg", "msg", "msg", "noargs", "stopiteration", "assert", "keyerror",
+                                       "odd-message", "non-str-arg", "base"]),
         "drive": st.sampled_from(["start", "bounded", "step", "mixed"]),
         "cuts": st.lists(st.integers(1, 9), min_size=1, max_size=4),
         "mix": st.lists(st.sampled_from(["step", "run", "step", "start"]), min_size=1, max_size=10),
@@ -184,6 +186,12 @@ def run_case(case):
     if case.get("direct"):
         prog["direct_events"] = True
         out.label("direct-events")
+    prog["fault_kind"] = case.get("fault_kind", "msg")
+    if prog["fault_kind"] == "base" and case.get("direct"):
+        # an event class of the user that lets a BaseException through is outside the property: the library's own
+        # SimEvent.execute converts every failure of the handler (the anchor of this property)
+        prog["fault_kind"] = "msg"
+    out.label("fault=" + prog["fault_kind"])
     out.label("when=" + case.get("when", "after-init"))
     ck = prog["clock"]
     base = RefSim(prog)
